@@ -116,8 +116,16 @@ def Try(b, x, c):
 
 
 # ---- statements ----------------------------------------------------------------------------
-def Let(x, e):
-    return {"k": "let", "x": x, "e": e}
+def Let(x, e, t=None):
+    """t: optional type annotation (text)"""
+    n = {"k": "let", "x": x, "e": e}
+    if t is not None:
+        n["t"] = t
+    return n
+
+
+def As(e, ty):
+    return {"k": "cast", "e": e, "ty": ty, "p": newp()}
 
 
 def Expr(e):
@@ -410,7 +418,7 @@ def r_stmt(w, n, ind):
     k = n["k"]
     start = w.pos()
     if k == "let":
-        w.w("let %s = " % n["x"])
+        w.w("let %s%s = " % (n["x"], ": " + n["t"] if n.get("t") else ""))
         r_expr(w, n["e"], ind)
         w.w(";")
     elif k == "expr":
@@ -462,14 +470,14 @@ def render(prog):
         if "decl" in g:                      # a singleton: declared by its type, initialised by the host / zero value
             w.w("%s = %s;\n" % (g["x"], g["decl"]))
             continue
-        w.w("let %s = " % g["x"])
+        w.w("let %s%s = " % (g["x"], ": " + g["t"] if g.get("t") else ""))
         r_expr(w, g["e"], 0)
         w.w(";\n")
     if prog["globals"]:
         w.w("\n")
-    names = [f for f in prog["fns"] if f != "main"] + ["main"]
-    for name in names:
-        f = prog["fns"][name]
+    names = [f for f in prog["fns"] if f != "main"] + (["main"] if "main" in prog["fns"] else [])
+    todo = [(name, prog["fns"][name]) for name in names] + [(name, f) for name, f in prog.get("dupfns", ())]
+    for name, f in todo:
         params = ["%s: %s" % (p, sname) for p, sname in f.get("sps", [])] + ["%s: %s" % (p, t) for p, t in zip(f["ps"], f["pts"])]
         w.w("%sfn %s(%s)" % ("event " if f.get("event") else "", name, ", ".join(params)))
         if f["ret"] != "null":
